@@ -55,6 +55,7 @@ def impl_value(data, labels, K):
 def run(ctx):
     rng = np.random.default_rng(ctx.seed)
     ctx.proof_layer(allowed_axioms=core.R_AX, coq_deps=["Corr/RunAccounting"])
+    core.note_drift(ctx, ANCHORS)
     cov = core.LineCoverage()
     lits, meta = [], []
     with cov:
